@@ -546,6 +546,19 @@ void mmd_assign_line_type(mmd_engine * e, token * line) {
 							t = t->prev;
 							break;
 
+						case TEXT_PLAIN:
+
+							// Trailing white space at the very end of the source is
+							// tokenized as plain text
+							if ((t->next == NULL) && (t->len == 1) &&
+									char_is_whitespace(source[t->start])) {
+								t = t->prev;
+							} else {
+								t = NULL;
+							}
+
+							break;
+
 						case HASH1:
 						case HASH2:
 						case HASH3:
